@@ -36,6 +36,9 @@ def _strip(e):
     return e
 
 
+UNROLL_MAX = 8
+
+
 class Loops:
     def __init__(self, I):
         self.I = I
@@ -1187,11 +1190,44 @@ class Loops:
                 at_exit(s)
             outs.append((s, "val", UNIT))
             return outs
+        seq = itv.seq
+        pos0 = itv.pos
+        if N.is_const() and 0 < N.c <= UNROLL_MAX and seq[0] != "custom":
+            # a traversal with a small constant number of elements is executed element by element: this is exact
+            # (no summarisation is involved), e.g. assembling a big-endian value from the 2 or 4 bytes of a fixed slice
+            states = [s]
+            for k in range(N.c):
+                nxt = []
+                for st_ in states:
+                    for s1, u_, v in self._elem_with_base(st_, seq, pos0 + k, e):
+                        s1 = s1 if s1 is not st_ else st_.clone()
+                        if ref is not None:
+                            I.write_loc(s1, ref.key, ref.path, IterV(seq, pos0 + k + 1))
+                        if bind_var is not None:
+                            s1.env[bind_var] = v
+                        else:
+                            I.bind(s1, elem_pat, v)
+                        for s2, kind, val in I.ev(body, s1):
+                            if kind == "val" or (kind == "cont" and val[0] == label_):
+                                nxt.append(s2)
+                            elif kind == "brk" and val[0] == label_:
+                                outs.append((s2, "val", val[1]))
+                            else:
+                                outs.append((s2, kind, val))
+                states = nxt
+                if len(states) > 256:
+                    states = None
+                    break
+            if states is not None:
+                for st_ in states:
+                    if at_exit is not None:
+                        at_exit(st_)
+                    outs.append((st_, "val", UNIT))
+                return outs
+            outs = []
         kname = I.fresh("k")
         katom = ("k", kname)
         K = Lin.atom(katom)
-        seq = itv.seq
-        pos0 = itv.pos
 
         def bind(s0, seq=seq, K=K, pos0=pos0, ref=ref, kname=kname):
             res = []
